@@ -223,11 +223,9 @@ func replay(w *lib.Writer, path string) {
 		}
 	case "adv":
 		src := advSource(in.Shape, in.N)
-		rs := runAll([]Request{{ID: 0, Src: src, LimitMs: advLimitMs}}, 1)
-		if mustAccept(in.Shape, in.N) && rs[0].Load == loadSyntax {
-			rs[0].Load, rs[0].Msg = loadOtherErr, "a program within Lua 5.1's limits (200 locals, 250 registers) is rejected: "+rs[0].Msg
-		}
-		addGoSide(w, in, rs[0], "replay", kfAdv(in.Shape, in.N))
+		_, run := expectedReturn(in.Shape, in.N)
+		rs := runAll([]Request{{ID: 0, Src: src, Run: run, LimitMs: advLimitMs}}, 1)
+		addGoSide(w, in, advVerdict(in.Shape, in.N, rs[0]), "replay", kfAdv(in.Shape, in.N))
 	default:
 		panic("unknown replay kind " + in.Kind)
 	}
